@@ -113,6 +113,7 @@ def build_scenario(r, kind: str, seq: List[str]) -> Dict[str, Any]:
             late += 1
         if a == "listen_key_expired":
             st["pick"] = r.randrange(10)
+            st["together"] = r.random() < 0.4     # every user-data stream of the connection expires in the same instant
         steps.append(st)
         t += r.choice([0.2, 1.5, 3.0, 6.5])
     for _ in range(r.randint(1, 3)):
@@ -414,6 +415,7 @@ class Run:
     def __init__(self, sc: Dict[str, Any]):
         self.sc = sc
         self.delivered: List[tuple] = []          # (t, chan, uid)
+        self.expired_together = 0
         self.sent: List[Dict[str, Any]] = []       # {uid, chan, t, cid}
         self.client_errors: List[tuple] = []
         self.key_subscriptions: List[tuple] = []   # (t, cid, chan, key)  [binance]
@@ -492,10 +494,13 @@ class Run:
                     elif a == "listen_key_expired" and ws:
                         users = sorted({ch for (t, cid, ch, k) in self.key_subscriptions if cid == ws.cid})
                         if users:
-                            ch = users[st["pick"] % len(users)]
-                            key = ad.current_key(ws, ch)
-                            self.flagged.append((self.peer.now(), ws.cid, ch, key))
-                            ws.push_json({"stream": key, "data": {"e": "listenKeyExpired", "E": 1700000000000}})
+                            picked = users if st.get("together") else [users[st["pick"] % len(users)]]
+                            for ch in picked:
+                                key = ad.current_key(ws, ch)
+                                self.flagged.append((self.peer.now(), ws.cid, ch, key))
+                                ws.push_json({"stream": key, "data": {"e": "listenKeyExpired", "E": 1700000000000}})
+                            if len(picked) > 1:
+                                self.expired_together += 1
                     elif a == "fail_listen_key":
                         self.peer.fail_listen_key += st["n"]
                     elif a == "fail_keep_alive":
@@ -677,6 +682,7 @@ def evaluate(sc: Dict[str, Any], res: ShardResult) -> Run:
     res.count("subscribe_frames", sum(len(v) for v in run.subs.values()))
     res.count("messages_sent", len(run.sent))
     res.count("messages_delivered", len(run.delivered))
+    res.count("listen_keys_expired_together", run.expired_together)
     res.count("keep_alives", len(run.peer.keep_alives))
     res.count("listen_keys", len(run.peer.listen_keys))
     res.count("flagged_resubscriptions", len(run.flagged))
